@@ -15,7 +15,8 @@ What it simulates (ZooKeeper/Kazoo semantics the recipes rely on):
     greenlet and reads the tree *as it is at that moment*;
   * a `get` of a child issued by any greenlet other than the harness greenlet (ServerSet's
     notification worker) parks until the harness calls `release()`; the answer (data or
-    NoNodeError) is taken from the tree at release time.
+    NoNodeError) is taken from the tree at release time.  With `sync_reads` (or while `inline` is
+    raised by the harness around a re-entrant call) the read completes inside the call instead.
 
 No network, no threads, no timers.  The harness greenlet never yields inside a mutation or a
 delivery, so the schedule is exactly the sequence of harness calls.
@@ -58,7 +59,9 @@ class FakeZk(KazooClient):
     self.pending = []                 # [(kind, watcher, event)] FIFO; kind 'data' | 'children'
     self.owner = gevent.getcurrent()  # the harness greenlet
     self.parked = None                # (name, Event) of the worker's in-flight read
-    self.read_log = []                # [(name, found)] answered reads
+    self.sync_reads = False           # True: every read completes inside the call (a zk.get that does not yield)
+    self.inline = 0                   # >0: reads issued right now complete inside the call (re-entrant get_members)
+    self.read_log = []                # [(name, found)] answered reads of the notification worker
     self.spawned = 0
     self._listeners = []
 
@@ -97,14 +100,15 @@ class FakeZk(KazooClient):
     if not path.startswith(pre) or watch is not None:
       raise AssertionError('get(%r) not simulated' % path)
     name = path[len(pre):]
-    if gevent.getcurrent() is not self.owner:
+    if gevent.getcurrent() is not self.owner and not self.sync_reads and not self.inline:
       if self.parked is not None:
         raise AssertionError('two reads in flight')
       ev = Event()
       self.parked = (name, ev)
       ev.wait()
     found = self.parent and name in self.children
-    self.read_log.append((name, found))
+    if gevent.getcurrent() is not self.owner and not self.inline:
+      self.read_log.append((name, found))           # reads of the notification worker only
     if not found:
       raise NoNodeError()
     return self.children[name], self._stat(1, len(self.children[name]))
